@@ -49,7 +49,8 @@ def objOf (idx : Nat) (j : Json) : Obj :=
     inactive := bool j "inactive"
     skipDeps := bool j "skipDeps"
     refKind := kindOfStr (str j "refKind")
-    ofKind := kindOfStr (str j "ofKind") }
+    ofKind := kindOfStr (str j "ofKind")
+    refVer := str j "refVer" }
 
 def enumFrom {α : Type} : Nat → List α → List (Nat × α)
   | _, [] => []
@@ -73,7 +74,12 @@ def actOf (j : Json) : Except String Act :=
   | "del" => .ok (.del ⟨kindOfStr (str j "kind"), str j "name"⟩)
   | "gc" => .ok .gc
   | "unfin" => .ok (.unfin ⟨kindOfStr (str j "kind"), str j "name"⟩ (str j "fin"))
+  | "live" => .error "live"
   | o => .error s!"unknown op {o}"
+
+/-- the kind of object a controller reconciles -/
+def Ctl.kind : Ctl → Kind
+  | .claim => .claim | .xr => .xr | .defined => .xrd | .offered => .xrd | .rev => .rev | .usage => .usage
 
 /-- reason string the real condition carries for a model condition token -/
 def reasonOf (tok : String) : String :=
@@ -84,6 +90,9 @@ def reasonOf (tok : String) : String :=
     | "Paused" => "ReconcilePaused"
     | "TerminatingComposite" => Xp.Gen.c08ReasonTerminatingComposite
     | "TerminatingClaim" => Xp.Gen.c08ReasonTerminatingClaim
+    | "WatchingComposite" => Xp.Gen.c08ReasonWatchingComposite
+    | "WatchingClaim" => Xp.Gen.c08ReasonWatchingClaim
+    | "Waiting" => Xp.Gen.c08ReasonWaiting
     | t => t
 
 def b01 (b : Bool) : String := if b then "1" else "0"
@@ -95,6 +104,7 @@ def Obj.repr (o : Obj) : String :=
   (if o.del then "del " else "") ++ "fins=" ++ ",".intercalate o.fins ++
   (if o.pkgs.isEmpty then "" else " pkgs=" ++ ",".intercalate o.pkgs) ++
   (if o.inuse then " inuse" else "") ++
+  (if (o.key.kind == .usage || o.key.kind == .crd) && !o.owners.isEmpty then s!" owners={o.owners.length}" else "") ++
   (if conds.isEmpty then "" else " conds=" ++ ",".intercalate conds)
 
 def Obj.keyStr (o : Obj) : String := o.key.kind.str ++ "/" ++ o.key.name
@@ -191,19 +201,45 @@ def stepObs (s : Sys) (a : Act) : Sys × StepObs × Bool × Bool :=
 def handler : Handler := fun scn => do
   let objs := (enumFrom 0 (arr scn "objs")).map fun (i, j) => objOf i j
   let st0 : St := { objs := objs, nextRv := objs.length + 1, running := strs scn "running" }
-  let acts ← (arr scn "steps").mapM actOf
   let mut s : Sys := { st := st0, ths := [] }
   let mut out : Array Json := #[]
   let mut ok := true
   let mut why := ""
-  for a in acts do
-    let (s', o, safe, oos) := stepObs s a
-    if oos then throw "a live (not deleted) object was reconciled: outside the model"
-    if !safe && ok then
-      ok := false
-      why := "C08:order-violated at " ++ o.call
-    out := out.push o.json
-    s := s'
+  -- every step so far stayed outside the windows (`Sys.calmB`); inside a window the ordering
+  -- constraint is not claimed (`trace_order_all`)
+  let mut calm := true
+  -- starts[g] = length of `past` when scenario step g began (a `live` step is several model steps)
+  let mut starts : Array Nat := #[]
+  for j in arr scn "steps" do
+    starts := starts.push s.past.length
+    if str j "op" == "live" then
+      -- ONE whole reconcile of a live object, run atomically by the real code
+      match ctlOfStr (str j "c") with
+      | none => throw "unknown controller"
+      | some c =>
+        let n := str j "name"
+        match find s.st ⟨c.kind, n⟩ with
+        | none => throw "live step on an absent object: outside the model"
+        | some o =>
+          if o.del then throw "live step on a deleted object: outside the model"
+          let before := s.st
+          for l in liveActs s.st c n do
+            calm := calm && s.calmB (.live l)
+            s := s.act (.live l)
+          out := out.push ({ chg := diff before s.st } : StepObs).json
+    else
+      let a ← actOf j
+      let a := match a with
+        | .lagStep i g => .lagStep i (starts.getD g 0)
+        | a => a
+      calm := calm && s.calmB a
+      let (s', o, safe, oos) := stepObs s a
+      if oos then throw "a live (not deleted) object was reconciled: outside the model"
+      if !safe && ok && calm then
+        ok := false
+        why := "C08:order-violated at " ++ o.call
+      out := out.push o.json
+      s := s'
   let final := Json.arr (s.st.lines.map Json.str).toArray
   return (Json.mkObj [("steps", Json.arr out), ("final", final)], ok, why)
 
